@@ -207,43 +207,49 @@ def make_real(pp, sub):
 
 # ------------------------------------------------------------------------------------------------ concentrations
 
-def render_c(x_ratio, num, den, form, np_='', dp='', w=None, style=0, digits=6, wv='g/mL'):
-    """A concentration string for the base ratio x_ratio (num base units per den base unit).
+def render_c(x_ratio, num, den, form, np_='', dp='', w=None, style=0, digits=6, wv='g/mL', P=10):
+    """A concentration string for (approximately) the base ratio x_ratio (num base units per den base unit).
+
+    The stated base ratio is an exact decimal with at most `digits` significant digits *and* at most P decimals,
+    so that the parser's rounding to internal precision is the identity; the spelled number is derived from it
+    exactly (all prefixes and denominator values are of the form 2^a 5^b).
 
     form: 'M' (mol/L), 'm' (mol/kg), 'ratio' (v pN/pD), 'ratiow' (v pN/w pD), '%w/w', '%v/v', '%w/v'
     """
+    import math
+    from refchem.model import split_unit
+    if x_ratio <= 0:
+        raise ValueError("positive ratios only")
+    d_eff = max(1, min(digits, int(math.floor(math.log10(x_ratio))) + 1 + P))
+    frac, _ = snap(x_ratio, d_eff)
+    if frac * 10 ** P != int(frac * 10 ** P):      # snapping rounded up across a decade etc.: force P decimals
+        frac = Fraction(round(float(frac) * 10 ** P), 10 ** P)
+    if frac <= 0:
+        frac = Fraction(1, 10 ** P)
+
+    def txt(v):
+        return dec_text(_frac_to_decstr(v), style)
     if form == 'M':
-        v = x_ratio / float(PREFIXES[np_])
-        frac, s = snap(v, digits)
-        return C(frac * PREFIXES[np_], 'mol', 'L', f"{dec_text(s, style)} {np_}M", form)
+        return C(frac, 'mol', 'L', f"{txt(frac / PREFIXES[np_])} {np_}M", form)
     if form == 'm':
-        v = x_ratio * 1000 / float(PREFIXES[np_])           # mol/kg
-        frac, s = snap(v, digits)
-        return C(frac * PREFIXES[np_] / 1000, 'mol', 'g', f"{dec_text(s, style)} {np_}m", form)
+        return C(frac, 'mol', 'g', f"{txt(frac * 1000 / PREFIXES[np_])} {np_}m", form)
     if form in ('%w/w', '%v/v'):
-        frac, s = snap(x_ratio * 100, digits)
         fam = 'g' if form == '%w/w' else 'L'
-        return C(frac / 100, fam, fam, f"{dec_text(s, style)} {form}", form)
+        return C(frac, fam, fam, f"{txt(frac * 100)} {form}", form)
     if form == '%w/v':
-        # wv like 'g/mL': percent of that unit
-        from refchem.model import split_unit
         a, b = wv.split('/')
         pa, fa = split_unit(a)
         pb, fb = split_unit(b)
         scale = PREFIXES[pa] / PREFIXES[pb]
-        frac, s = snap(x_ratio * 100 / float(scale), digits)
-        return C(frac / 100 * scale, fa, fb, f"{dec_text(s, style)} %w/v", form)
+        return C(frac, fa, fb, f"{txt(frac * 100 / scale)} %w/v", form)
+    nump = np_ if num != 'U' else ''
     if form == 'ratio':
-        v = x_ratio * float(PREFIXES[dp]) / float(PREFIXES[np_])
-        frac, s = snap(v, digits)
-        return C(frac * PREFIXES[np_] / PREFIXES[dp], num, den,
-                 f"{dec_text(s, style)} {np_ if num != 'U' else ''}{num}/{dp}{den}", form)
+        v = frac * PREFIXES[dp] / PREFIXES[nump]
+        return C(frac, num, den, f"{txt(v)} {nump}{num}/{dp}{den}", form)
     if form == 'ratiow':
         wfrac = Fraction(w)
-        v = x_ratio * float(wfrac * PREFIXES[dp]) / float(PREFIXES[np_])
-        frac, s = snap(v, digits)
-        return C(frac * PREFIXES[np_] / (wfrac * PREFIXES[dp]), num, den,
-                 f"{dec_text(s, style)} {np_ if num != 'U' else ''}{num}/{w} {dp}{den}", form)
+        v = frac * wfrac * PREFIXES[dp] / PREFIXES[nump]
+        return C(frac, num, den, f"{txt(v)} {nump}{num}/{w} {dp}{den}", form)
     raise ValueError(form)
 
 
